@@ -8,6 +8,7 @@ EXTENDS Integers, Sequences, FiniteSets, TLC
 
 CONSTANTS MaxCalls,       \* length of the call history
           MaxIO,          \* fault positions 1..MaxIO are explored (plus "no fault")
+          MaxPolicyChanges, \* how often the target may change its admission policy between calls (busy now, free later)
           Gen             \* TRUE: carry the history and print terminal behaviours (R2)
 
 Calls    == {"open", "close", "msgC", "msgU"}
@@ -20,8 +21,9 @@ VARIABLES policy, fault,          \* environment choices, fixed at Init: fault =
           told,                   \* connection ids whose Forward Open reply reached the driver
           call, pc, err,          \* current call, control point, error collected by close()
           ncalls, hist, result,   \* calls finished, history (Gen), outcome of the last call
-          closeFault, viol
-vars == <<policy, fault, io, gone, drv, tgt, told, call, pc, err, ncalls, hist, result, closeFault, viol>>
+          closeFault, viol,
+          pch                     \* policy changes so far
+vars == <<policy, fault, io, gone, drv, tgt, told, call, pc, err, ncalls, hist, result, closeFault, viol, pch>>
 
 NoFault == [kind |-> "none", at |-> 0]
 Init == /\ policy \in Policies
@@ -30,7 +32,7 @@ Init == /\ policy \in Policies
         /\ drv = [sock |-> FALSE, opened |-> FALSE, session |-> 0, connected |-> FALSE, ext |-> TRUE, size |-> 4000, cid |-> 0]
         /\ tgt = [sessions |-> {}, conns |-> {}, next |-> 1]
         /\ told = {} /\ call = "idle" /\ pc = "idle" /\ err = FALSE
-        /\ ncalls = 0 /\ hist = <<>> /\ result = "none" /\ closeFault = FALSE /\ viol = ""
+        /\ ncalls = 0 /\ hist = <<>> /\ result = "none" /\ closeFault = FALSE /\ viol = "" /\ pch = 0
 
 (* ------------------------------------------------ raw I/O ------------------------------------------------ *)
 \* one raw operation: TRUE when it succeeds; the fault fires exactly at its position, a vanished peer fails always
@@ -138,8 +140,15 @@ U2 == /\ pc = "u2" /\ IoStep
       /\ Finish(IF IoFails THEN "CommError" ELSE "tag")
       /\ UNCHANGED <<policy, fault, drv, tgt, told, viol>>
 
-Next == \/ \E c \in Calls : Begin(c)
-        \/ O1 \/ O2 \/ O3 \/ C1 \/ C2 \/ C3 \/ C4 \/ C5 \/ M1 \/ M2 \/ M3 \/ M5 \/ M6 \/ U1 \/ U2
+\* the environment: between two calls the target changes its admission policy (it was busy and now admits connections, or
+\* the reverse); the driver learns nothing of it
+PolicyChange == /\ call = "idle" /\ pch < MaxPolicyChanges /\ viol = "" /\ ncalls < MaxCalls /\ ncalls > 0
+                /\ \E p \in Policies \ {policy} : policy' = p
+                /\ pch' = pch + 1
+                /\ UNCHANGED <<fault, io, gone, drv, tgt, told, call, pc, err, ncalls, hist, result, closeFault, viol>>
+Driver == \/ \E c \in Calls : Begin(c)
+          \/ O1 \/ O2 \/ O3 \/ C1 \/ C2 \/ C3 \/ C4 \/ C5 \/ M1 \/ M2 \/ M3 \/ M5 \/ M6 \/ U1 \/ U2
+Next == (Driver /\ UNCHANGED pch) \/ PolicyChange
 Spec == Init /\ [][Next]_vars /\ WF_vars(Next)
 
 (* ------------------------------------------------ Contract ------------------------------------------------ *)
@@ -157,7 +166,7 @@ FallbackOrderAndSize == ~drv.ext => drv.size = 500
 \* every call terminates
 Terminates == []<>(call = "idle")
 \* a close without faults on a reachable target leaves nothing behind, and a following open + connected message works
-ReopenWorks == [][(call = "open" /\ call' = "idle" /\ fault.kind = "none" /\ policy # "SessionRefused") => result' = "true"]_vars
+ReopenWorks == [][(call = "open" /\ call' = "idle" /\ fault.kind = "none" /\ policy # "SessionRefused" /\ pch = 0) => result' = "true"]_vars
 
 Emit == (Gen /\ call = "idle" /\ ncalls = MaxCalls) => PrintT(<<"BEH", policy, fault.kind, fault.at, hist, io>>)
 ==============================================================================
